@@ -21,7 +21,12 @@ the last bit (oracle_ulp): decimal gammas (0.3/0.7, 0.2/0.3/0.5, ...), decimal-g
 that the two best categories tie exactly or within a few ulp: every fused activation computed while training / predicting
 equals, bit for bit, the Python sum of the rounded products gamma_k * (module k's own category_choice), and a channel
 permutation under which the float sum is the same double (two channels; the first two of more) leaves labels, predictions on
-the tie rows and per-channel weights unchanged, tied decisions included."""
+the tie rows and per-channel weights unchanged, tied decisions included;
+module objects with a past (oracle_lifecycle): channels that are shallow copies of one trained / untrained template (they arrive
+sharing one W list / one counters list), deep copies, modules trained before being wrapped, the modules of another fitted host,
+a shallow copy of a fitted host: after fit (+ partial_fit, re-fit) equal counts = labels used, W = concatenation, counters =
+label histogram, every channel = the bare module's rule on its slice, and everything identical to a FusionART over fresh,
+identically configured modules."""
 from __future__ import annotations
 
 import operator
@@ -1318,6 +1323,283 @@ def oracle_ulp(ctx, N, nmax, NC=24):
             cov.sample({"ulp": cls, "gamma": gam, "perm": perm, "tied_decisions": [d_exact, d_near], "labels": runs[0][0]})
 
 
+# ------------------------------------------------------------------ oracle: module objects with a past
+#
+# Every clause above builds its FusionART over freshly constructed modules.  The statement is about the channel modules
+# the estimator is *given*: "learning applies each channel module's own rule to that channel's slice of the sample, so
+# every channel stores exactly what its module alone would compute, all channels always hold the same number of
+# categories, and the fused weight is the concatenation of the channel weights" — `fit` starts from scratch, so whatever
+# the module objects lived through before they were wrapped must not matter.  Lifecycles:
+#   * the channels are SHALLOW COPIES (`copy.copy`) of one tuned = already trained template (they arrive sharing one `W`
+#     list, one `weight_sample_counter_` list and one `params` dict), with or without the template itself as a channel;
+#   * deep copies of a trained template; module objects trained one by one (fit / partial_fit / predict) and then wrapped;
+#   * the module objects of another, already fitted FusionART handed to a second host; shallow copies of one module of a
+#     fitted host; a shallow copy of a fitted host (shares the module objects), re-fitted or trained on with partial_fit;
+#   * shallow copies of an untrained template (they share the `params` dict and the empty counters list the constructor made;
+#     the first call may be partial_fit).
+# Oracle, on the implementation alone: equal category counts = number of labels used, W = concatenation, counters = label
+# histogram, every channel = the bare module's rule replayed on its slice with the host's winners, and labels / weights /
+# counters / predictions identical to a FusionART over fresh, identically configured modules run through the same calls.
+# A module that refuses the data at validation (e.g. it was trained on another width) is the library rejecting the
+# situation, not a violation.
+
+LIFECYCLES = ["shallow-copies-of-a-trained-template", "trained-template+its-shallow-copies", "deep-copies-of-a-trained-template",
+              "modules-trained-before-being-wrapped", "modules-of-a-fitted-host", "shallow-copies-of-one-module-of-a-fitted-host",
+              "shallow-copy-of-a-fitted-host", "shallow-copies-of-an-untrained-template"]
+
+
+def past_calls(X0, r):
+    """the calls an estimator went through before: fit / partial_fit batches / predict"""
+    how = r.choice(["fit", "fit", "pfit", "fit+pfit", "fit+predict"])
+    if how == "pfit" or (how == "fit+pfit" and len(X0) < 2):
+        return [("pfit", B) for B in gen.split(X0, gen.compositions(r, len(X0)))]
+    if how == "fit+pfit":
+        n1 = r.randint(1, len(X0) - 1)
+        return [("fit", X0[:n1]), ("pfit", X0[n1:])]
+    return [("fit", X0)] + ([("predict", X0[: max(1, len(X0) // 2)])] if how == "fit+predict" else [])
+
+
+def run_calls(m, calls):
+    """make the calls the plain way (no instance-level wrappers: a shallow copy would carry them along, bound to the
+    original), default arguments"""
+    with quiet(), time_limit(20):
+        for op, B in calls:
+            if op == "fit":
+                m.fit(B)
+            elif op == "pfit":
+                m.partial_fit(B)
+            else:
+                m.predict(B)
+    return calls
+
+
+def oracle_lifecycle(ctx, N, nmax):
+    import copy
+    from ..impl import FusionART as Fusion
+    cov = ctx.cov
+    for i in range(N):
+        r = gen.rng_for(ctx.seed, "C10-life", i)
+        life = LIFECYCLES[i % len(LIFECYCLES)]
+        one_template = life in ("shallow-copies-of-a-trained-template", "trained-template+its-shallow-copies",
+                                "deep-copies-of-a-trained-template", "shallow-copies-of-one-module-of-a-fitted-host",
+                                "shallow-copies-of-an-untrained-template")
+        if one_template:
+            # one class, one width, one set of hyper-parameters for every channel
+            k = r.choice([2, 2, 2, 3, 3, 4, 1])
+            c = specs.ELEM[(i // len(LIFECYCLES)) % len(specs.ELEM)] if r.random() < 0.5 else r.choice(EXACT_CH)
+            d = r.randint(1, 2)
+            s = specs.elem_spec(r, c, specs.width(c, d) if c != "FuzzyART" else d)
+            cls, ds, sp, dims = [c] * k, [d] * k, [deepcopy(s) for _ in range(k)], [specs.width(c, d)] * k
+            gam = list(r.choice(GAMMAS[k]))
+        elif (i // len(LIFECYCLES)) % 3 == 2:
+            k = r.randint(1, 3)
+            pos = r.randrange(k)
+            lc = LONG[(i // (3 * len(LIFECYCLES))) % len(LONG)]
+            cls = [lc if j == pos else r.choice(EXACT_CH) for j in range(k)]
+            ds = [r.randint(1, 2) for _ in range(k)]
+            sp = [specs.elem_spec(r, c, specs.width(c, d) if c != "FuzzyART" else d) for c, d in zip(cls, ds)]
+            dims = [specs.width(c, d) for c, d in zip(cls, ds)]
+            gam = list(r.choice(GAMMAS[k]))
+        else:
+            cls, ds, sp, dims, gam = gen_channels(r, 1, 4)
+        k = len(cls)
+        floats = r.random() < 0.4
+        n = r.randint(2, nmax)
+        X = np.hstack(channel_data(r, cls, ds, n, floats=floats))
+        n0 = r.randint(1, nmax)
+        off = np.cumsum([0] + dims)
+        spec = fusion_spec(sp, dims, gam)
+        mode = r.choice(MODES)
+        eps = r.choice([0.0, 2.0 ** -20, 2.0 ** -10, 0.125])
+        vt = gen.veto_table(r, n0 + 2 * n + 2, n0 + 2 * n + 3) if r.random() < 0.3 else None
+        # ---- the past of the module objects
+        past = {}
+        twin_prelude = None          # rows the fresh twin is fitted on first (only when the host goes on with partial_fit)
+        wrong_width = False
+        try:
+            if life in ("shallow-copies-of-a-trained-template", "trained-template+its-shallow-copies", "deep-copies-of-a-trained-template"):
+                X0 = specs.elem_data(r, cls[0], n0, ds[0], floats=floats and cls[0] != "ART1")
+                tmpl = make(deepcopy(sp[0]))
+                past = {"template": sp[0], "template_data": X0, "template_calls": run_calls(tmpl, past_calls(X0, r))}
+                if life == "deep-copies-of-a-trained-template":
+                    mods = [deepcopy(tmpl) for _ in range(k)]
+                elif life == "trained-template+its-shallow-copies":
+                    at = r.randrange(k)
+                    mods = [tmpl if j == at else copy.copy(tmpl) for j in range(k)]
+                    past["template_is_channel"] = at
+                else:
+                    mods = [copy.copy(tmpl) for _ in range(k)]
+            elif life == "shallow-copies-of-an-untrained-template":
+                tmpl = make(deepcopy(sp[0]))
+                mods = [copy.copy(tmpl) for _ in range(k)]
+            elif life == "modules-trained-before-being-wrapped":
+                mods, data0, calls0 = [], [], []
+                wrong = r.randrange(k) if r.random() < 0.1 else None     # one module has seen another width: may be refused
+                for j in range(k):
+                    dj = ds[j] + 1 if j == wrong else ds[j]
+                    X0 = specs.elem_data(r, cls[j], r.randint(1, nmax), dj, floats=floats and cls[j] != "ART1")
+                    m = make(deepcopy(sp[j]))
+                    calls0.append(run_calls(m, past_calls(X0, r)))
+                    mods.append(m)
+                    data0.append(X0)
+                wrong_width = wrong is not None
+                past = {"module_data": data0, "module_calls": calls0, "module_trained_on_another_width": wrong}
+            else:
+                Xa = np.hstack(channel_data(r, cls, ds, n0, floats=floats))
+                ga = list(r.choice(GAMMAS[k]))
+                host = make(fusion_spec(sp, dims, ga))
+                past = {"first_host": fusion_spec(sp, dims, ga), "first_host_data": Xa, "first_host_calls": run_calls(host, past_calls(Xa, r))}
+                if life == "modules-of-a-fitted-host":
+                    mods = list(host.modules)
+                elif life == "shallow-copies-of-one-module-of-a-fitted-host":
+                    src = r.randrange(k)
+                    mods = [copy.copy(host.modules[src]) for _ in range(k)]
+                    past["copied_module"] = src
+                else:
+                    mods = None      # the host under test is copy.copy(host): same module objects, same params dict
+                    gam, spec = ga, fusion_spec(sp, dims, ga)
+        except Exception as e:
+            cov.hit(f"lifecycle:past-itself-raises:{exc_enum(e)}")      # a module's / plain host's own failure: other clauses
+            continue
+        # ---- the calls made on the host under test
+        n1 = r.randint(1, n - 1)
+        style = r.choice(["fit", "fit", "fit+pfit", "refit"])
+        if life == "shallow-copies-of-an-untrained-template" and r.random() < 0.5:
+            style = "pfit"
+        if life == "shallow-copy-of-a-fitted-host" and r.random() < 0.5:
+            style = "continue"
+        if style == "fit":
+            prog = [("fit", X)]
+        elif style == "fit+pfit":
+            prog = [("fit", X[:n1])] + [("pfit", B) for B in gen.split(X[n1:], gen.compositions(r, n - n1))]
+        elif style == "refit":
+            prog = [("fit", X[:n1]), ("fit", X[::-1].copy())]
+        else:
+            prog = [("pfit", B) for B in gen.split(X, gen.compositions(r, n))]
+        if style == "continue":
+            # goes on where the first host stopped: the twin is a fresh host taken through the same calls first
+            twin_prelude = [(op_, B) for op_, B in past["first_host_calls"] if op_ != "predict"]
+            mode = r.choice(["MT+", "MT-", "MT1"])
+        last_fit = max([j for j, (op_, _) in enumerate(prog) if op_ == "fit"], default=None)
+        rows = np.vstack([B for _, B in prog[last_fit:]]) if last_fit is not None else \
+            np.vstack([B for _, B in (twin_prelude or []) + prog])
+        rep = dict(past, lifecycle=life, spec=spec, classes=cls, program=prog, mode=mode, eps=eps, veto=vt, X=X,
+                   how="channel modules built as described by `lifecycle` (copy.copy / deepcopy / the objects themselves), "
+                       "FusionART(modules, spec.gamma_values, spec.channel_dims) (or copy.copy(first host)), then `program`; "
+                       "twin = make(spec), same program (after the first host's calls when the program has no fit)")
+        key = (life, cls, sp, dims, gam, X.tolist(), style, n1, mode, eps, vt, repr(past))
+        try:
+            with quiet():
+                if mods is None:
+                    f = copy.copy(host)
+                else:
+                    f = Fusion(mods, list(gam), list(dims))
+        except Exception as e:
+            cov.case(key, False)
+            cov.hit(f"lifecycle:rejected-at-construction:{exc_enum(e)}")
+            continue
+        # the library may refuse the situation at the door (a module trained on another width, ...)
+        try:
+            with quiet():
+                f.validate_data(X)
+                f.check_dimensions(X)
+        except Exception as e:
+            cov.case(key, False)
+            cov.hit(f"lifecycle:rejected-at-validation:{exc_enum(e)}" + (":module-saw-another-width" if wrong_width else ""))
+            if not wrong_width:
+                cov.hit(f"lifecycle:rejected-at-validation:{life}")
+            continue
+        try:
+            drive(f, prog, mode, eps, vt)
+            err = None
+        except Exception as e:
+            err = e
+        try:
+            t = make(spec)
+            if twin_prelude is not None:
+                run_calls(t, twin_prelude)
+            drive(t, prog, mode, eps, vt)
+            terr = None
+        except Exception as e:
+            terr = e
+        if err is not None or terr is not None:
+            cov.case(key, False)
+            if err is not None and terr is not None:
+                cov.hit(f"lifecycle:both-raise:{exc_enum(err)}")
+            elif err is not None:
+                ctx.issue("violation", f"FusionART.fit:modules-with-a-past({life}):{exc_enum(err)}",
+                          f"{life}: the host accepts the data (validate_data) but training raised {err!r}; a FusionART over fresh, "
+                          f"identically configured modules trains ({cls}, dims {dims})", rep)
+            else:
+                cov.hit(f"lifecycle:only-the-fresh-twin-raises:{exc_enum(terr)}")
+            continue
+        labels = [int(v) for v in f.labels_]
+        counts = [len(m.W) for m in f.modules]
+        ncat = max(labels) + 1
+        cov.case(key, ncat >= 2 and k >= 2)
+        cov.hit(f"lifecycle:{life}")
+        cov.hit(f"lifecycle:calls={style}")
+        shared = k >= 2 and life in ("shallow-copies-of-a-trained-template", "trained-template+its-shallow-copies",
+                                     "shallow-copies-of-one-module-of-a-fitted-host")
+        if shared:
+            cov.hit("lifecycle:channels-arrive-sharing-one-W-list")
+        # equal counts = number of labels used; W = concatenation; counters = label histogram
+        if len(set(counts)) != 1 or counts[0] != ncat or f.n_clusters != ncat or len(f.W) != ncat:
+            ctx.issue("violation", f"FusionART:modules-with-a-past({life}):category-counts-differ",
+                      f"{life}: {ncat} distinct labels assigned, but the channel modules hold {counts} categories, n_clusters "
+                      f"{f.n_clusters}, |W| {len(f.W)}", rep)
+            continue
+        Wf = f.W
+        if any(not np.array_equal(np.asarray(Wf[c_], dtype=float),
+                                  np.concatenate([np.asarray(m.W[c_], dtype=float) for m in f.modules]), equal_nan=True)
+               for c_ in range(ncat)):
+            ctx.issue("violation", f"FusionART.W:modules-with-a-past({life}):not-concatenation",
+                      "W[c] differs from the concatenated module weights", rep)
+            continue
+        cnts = [[int(v) for v in m.weight_sample_counter_] for m in f.modules]
+        hist = np.bincount(labels, minlength=ncat).tolist()
+        if any(c_ != hist for c_ in cnts):
+            ctx.issue("violation", f"FusionART:modules-with-a-past({life}):module-counters!=label-histogram",
+                      f"{life}: counters {cnts}, label histogram {hist}", rep)
+            continue
+        # every channel stores what its module alone would compute on its slice
+        bad_ch = None
+        for j in range(k):
+            try:
+                b = bare_replay(sp[j], rows[:, off[j]:off[j + 1]], labels, mode)
+            except Exception as e:
+                bad_ch = (j, f"bare replay raised {e!r}")
+                break
+            if not same_W(f.modules[j].W, b.W):
+                bad_ch = (j, f"{life}: modules[{j}].W differs from a bare {cls[j]} fed the same slice and the host's winners")
+                break
+            cov.hit("lifecycle:channel-equals-bare-module")
+        if bad_ch:
+            ctx.issue("violation", f"FusionART({cls[bad_ch[0]]}):modules-with-a-past({life}):channel-weight!=module-rule",
+                      bad_ch[1], dict(rep, channel=bad_ch[0]))
+            continue
+        # identical to a FusionART over fresh, identically configured modules
+        q = X[: max(1, n // 2)]
+        try:
+            sf, st = state_of(f, q), state_of(t, q)
+        except Exception as e:
+            ctx.issue("violation", f"FusionART.predict:{exc_enum(e)}", f"predict on training rows raised {e!r}", rep)
+            continue
+        if sf[0] != st[0] or sf[3] != st[3]:
+            ctx.issue("violation", f"FusionART:modules-with-a-past({life}):clustering!=fresh-modules-twin",
+                      f"{life}: labels {sf[0]} predictions {sf[3]}; FusionART over fresh modules of the same configuration: "
+                      f"labels {st[0]} predictions {st[3]}", rep)
+            continue
+        tc = [[int(v) for v in m.weight_sample_counter_] for m in t.modules]
+        if not same_W(sf[1], st[1]) or any(not same_W(a, b_) for a, b_ in zip(sf[2], st[2])) or cnts != tc:
+            ctx.issue("violation", f"FusionART:modules-with-a-past({life}):weights!=fresh-modules-twin",
+                      f"{life}: same labels as the FusionART over fresh modules, different weights / counters ({cnts} vs {tc})", rep)
+            continue
+        cov.hit("lifecycle:equals-fresh-modules-twin")
+        if i < 2:
+            cov.sample({"lifecycle": life, "classes": cls, "gamma": gam, "calls": style, "labels": labels})
+
+
 GEN_THEOREMS = ['fusion_positions', 'fusion_category_choice', 'fusion_match_criterion_bin', 'fusion_match_criterion_bin_none', 'fusion_match_bin_model', 'fusion_update', 'fusion_update_none', 'fusion_new_weight', 'fusion_add_weight', 'fusion_set_weight', 'fusion_add_weight_model', 'fusion_set_weight_model', 'fusion_match_tracking', 'fusion_W_get', 'fusion_W_get_model']
 
 
@@ -1346,3 +1628,4 @@ def run(ctx):
     oracle_perm(ctx, ctx.scale(400, 3500), ctx.scale(12, 40))
     oracle_regamma(ctx, ctx.scale(240, 2000), ctx.scale(12, 40))
     oracle_ulp(ctx, ctx.scale(200, 2500), ctx.scale(12, 24))
+    oracle_lifecycle(ctx, ctx.scale(320, 3000), ctx.scale(12, 30))
